@@ -326,7 +326,13 @@ def binop_cases(op, pairs, kind="int", tag=""):
 
 def grid_pairs(grid, extra=()):
     ps = [(a, b) for a in grid for b in grid]
-    ps.extend(extra)
+    # counterexamples handed over by K: keep well-formed pairs; a single operand is paired with the grid's edge values
+    for e in extra:
+        e = tuple(e)
+        if len(e) == 2 and all(x is not None for x in e):
+            ps.append(e)
+        elif len(e) == 1 and e[0] is not None:
+            ps.extend([(e[0], 0), (e[0], 1), (e[0], 2), (e[0], 3), (e[0], 63), (e[0], 64)])
     return ps
 
 
@@ -372,6 +378,9 @@ def fam_bitwise(tier, seed, extra=()):
 
 def fam_compare(tier, seed, extra=()):
     out = []
+    for i, (a, b) in enumerate(grid_pairs([0, 1, -1, MIN, MAX, 7])):
+        for op in ("<", "<=", ">", ">=", "==", "!="):
+            out.append(Case(f"notcmp/{op}/{i}", f"f := (x: int, y: int) -> bool {{ return !(x {op} y) }}; f(a, b)", not int_op(op, a, b), {"a": a, "b": b}))
     pairs = grid_pairs(SMALL_GRID if tier == "quick" else INT_GRID, [e for e in extra if len(e) == 2])
     fpairs = grid_pairs(FLOAT_GRID)
     for op in (">", ">=", "<", "<="):
@@ -389,6 +398,27 @@ def fam_float(tier, seed, extra=()):
             pairs.append((bits_f(rnd.getrandbits(64)), bits_f(rnd.getrandbits(64))))
     for op in ("+", "-", "*", "/"):
         out += binop_cases(op, pairs, kind="float")
+    # chains: a run-time operand followed by TWO literal constants must be evaluated left to right
+    # (floating point is not associative): ((x op c1) op c2)
+    chain_vals = [0.1, 1e16, -0.0, 1e308, 3.0, 5e-324, math.inf, math.nan]
+    consts = [(0.2, 0.3), (1.0, 1.0), (1e308, -1e308), (0.1, 0.7), (3.0, 1e-16)]
+    k = 0
+    for x in chain_vals:
+        for (c1, c2) in consts:
+            for o1 in ("+", "-", "*", "/"):
+                for o2 in ("+", "-", "*", "/"):
+                    exp = float_op(o2, float_op(o1, x, c1), c2)
+                    out.append(Case(f"fchain/{k}", f"f := (x: float) -> float {{ return x {o1} c1 {o2} c2 }}; f(a)" if o1 in "*/" or o2 in "+-"
+                                    else f"f := (x: float) -> float {{ return (x {o1} c1) {o2} c2 }}; f(a)",
+                                    exp, {"a": x, "c1": c1, "c2": c2}, what=f"({x!r} {o1} {c1!r}) {o2} {c2!r}"))
+                    k += 1
+    # negation of a comparison is NOT the complementary comparison when an operand is NaN
+    for i, (a, b) in enumerate(grid_pairs([0.0, -0.0, 1.0, -1.0, math.inf, -math.inf, math.nan, 5e-324])):
+        for op in ("<", "<=", ">", ">=", "==", "!="):
+            exp = not float_op(op, a, b)
+            out.append(Case(f"fnotcmp/{op}/rt/{i}", f"f := (x: float, y: float) -> bool {{ return !(x {op} y) }}; f(a, b)", exp, {"a": a, "b": b}))
+            out.append(Case(f"fnotcmp/{op}/folded/{i}", f"!(a {op} b)", exp, {"a": a, "b": b}))
+            out.append(Case(f"fnotcmp/{op}/mixed/{i}", f"f := (x: float) -> bool {{ return !(x {op} b) }}; f(a)", exp, {"a": a, "b": b}))
     return out + [c for c in fam_unary(tier, seed) if c.id.startswith("fneg/")]
 
 
@@ -754,6 +784,21 @@ def fam_control(tier, seed, extra=()):
     c("loop/unconditional_continue_then_break", "i := mut 0; n := mut 0; loop { i += 1; if *i > 3 { break } loop { n += 1; if true { break } else { continue } } }; (*i, *n)", (4, 3))
     c("loop/take_first", "first := mut 0; n := mut 0; for a in [10, 20]~ { for x in [1, 2, 3]~ { first += x; break }; n += a }; (*first, *n)", (2, 30))
     c("loop/all_paths_diverge", "i := mut 0; r := mut 0; while *i < 3 { i += 1; loop { if *i == 2 { break } else { break } }; r += 1 }; *r", 3)
+    c("if/dead_branch_not_folded", "f := (a: int) -> int { d := 0; if d != 0 { return a / d } return 0 }; f(7)", 0)
+    c("if/dead_else_not_folded", "f := (a: int) -> int { d := 0; return if d == 0 { a } else { a % d } }; f(7)", 7)
+    c("if/dead_branch_in_loop", "i := mut 0; s := mut 0; z := 0; while *i < 3 { i += 1; if z != 0 { s += 1 / z; continue } else { s += 1 } }; *s", 3)
+    c("block/effect_then_constant", "n := mut 0; x := { n += 7; 5 }; (x, *n)", (5, 7))
+    c("block/effect_then_captured_constant", "k := 42; n := mut 0; f := () -> int { return { n += 1; k } }; (f(), *n)", (42, 1))
+    c("block/match_arm_blocks", "seen := mut 0; f := (v: int | float) -> int { return match v { x: int => { seen += 1; 100 }, => { seen += 10; 200 }, } }; (f(1), f(1.5), *seen)", (100, 200, 11))
+    c("block/if_branch_blocks", "n := mut 0; f := (b: bool) -> int { return if b { n += 1; 10 } else { n += 2; 20 } }; (f(true), f(false), *n)", (10, 20, 3))
+    c("block/constant_then_effect", "n := mut 0; x := { 5; n += 7 }; (x, *n)", (7, 7))
+    c("while/continue_in_last_iteration", "i := mut 0; n := mut 0; while *i < 3 { i += 1; if *i == 3 { continue } n += 1 }; (*i, *n)", (3, 2))
+    c("while/continue_every_iteration", "i := mut 0; while *i < 4 { i += 1; continue }; *i", 4)
+    c("while/continue_nested_block_last", "i := mut 0; n := mut 0; while *i < 2 { i += 1; { if *i == 2 { continue } }; n += 1 }; (*i, *n)", (2, 1))
+    c("while/index_guard", "arr := [1, 2, 3]; i := mut 0; s := mut 0; while *i < 3 { v := arr[*i]; i += 1; if v == 3 { continue } s += v }; *s", 3)
+    c("while/condition_side_effect_count", "c := mut 0; i := mut 0; test := () -> bool { c += 1; return *i < 3 }; while test() { i += 1; if *i == 2 { continue } }; (*i, *c)", (3, 4))
+    c("whileset/continue_last", "vals := [1, 2, 3.5]; i := mut 0; n := mut 0; while x: int = vals[*i] { i += 1; if x == 2 { continue } n += 1 }; (*i, *n)", (2, 1))
+    c("for/continue_last", "n := mut 0; for x in [1, 2, 3]~ { if x == 3 { continue } n += x }; *n", 3)
     c("block/value", "x := { 1; 2; 3 }; y := { }; (x, y)", (3, None))
     c("block/last_is_set", "x := { a := 5 }; x", 5)
     return out
@@ -818,6 +863,12 @@ TWIN_TEMPLATES = [
     ("folded_array_runtime_type", "a := [A, 2.5]; b := [a[0], a[0]]; match b { v: [int] => 1, v: [any] => 2, }"),
     ("folded_array_ifset", "a := [A, 2.5]; c := mut 0; if ints: [int] = [a[0]] { c += 1 } else { c += 100 }; *c"),
     ("folded_tuple_runtime_type", "a := [A, 2.5]; t := (a[0], a[1]); match t { v: (int, float) => 1, => 2, }"),
+    ("ifset_wider_type_constant", "c := mut 0; r := if x: int | float = A { c += 1; 1 } else { c += 10; 2 }; (r, *c)"),
+    ("ifset_any_constant", "c := mut 0; r := if x: any = A { c += 1; 1 } else { c += 10; 2 }; q := if y: [any] = [A, B] 1 else 2; (r, q, *c)"),
+    ("ifset_mismatch_constant", "c := mut 0; r := if x: float | string = A { c += 1; 1 } else { c += 10; 2 }; (r, *c)"),
+    ("whileset_wider_type_constant", "n := mut 0; while x: int | string = A { n += 1; if *n >= 3 { break } }; *n"),
+    ("float_two_constants_after_runtime", "m := mut 0.1; r := *m + 0.2 + 0.3; q := *m * 3.0 * (1.0 / 3.0); m = 1e16; (r, q, *m + 1.0 + 1.0, *m - 1.0 - 1.0)"),
+    ("int_two_constants_after_runtime", "m := mut A; (*m + B + C, *m - B - C, *m * B * C, (*m + B) * C)"),
     ("index", "arr := [A, B, C]; (arr[0], arr[2 - 3], arr[1] + arr[0])"),
     ("index_expr", "[A, B, C][(A - A) + 1]"),
     ("tuple", "t := (A, B, C); (t.0 + t.2, t.1)"),
